@@ -471,7 +471,7 @@ func TestVerif_C12(t *testing.T) {
 	defer rec.Done()
 	log.SetOutput(io.Discard)
 
-	reps := rec.N(2, 4)
+	reps := rec.N(2, 3)
 	workers := 16
 	r := rec.Rand(1)
 	scs := c12Scenarios(r, rec.Quick())
